@@ -17,15 +17,17 @@ Fixpoint upto_comma (ts : list tok) (brace bracket paren : Z) (acc : list tok) :
     if tokty_eqb (ty t) T_EOF then (rev (t :: acc), r)
     else
       let v := val t in
+      let isident := tokty_eqb (ty t) T_IDENT in     (* an identifier written \2c has the value , too *)
       let '(b, k, p) :=
-        if str_eqb v [123] then (brace + 1, bracket, paren)%Z
+        if isident then (brace, bracket, paren)
+        else if str_eqb v [123] then (brace + 1, bracket, paren)%Z
         else if str_eqb v [125] then (brace - 1, bracket, paren)%Z
         else if str_eqb v [91] then (brace, bracket + 1, paren)%Z
         else if str_eqb v [93] then (brace, bracket - 1, paren)%Z
         else if str_eqb v [40] || tokty_eqb (ty t) T_FUNCTION then (brace, bracket, paren + 1)%Z
         else if str_eqb v [41] then (brace, bracket, paren - 1)%Z
         else (brace, bracket, paren) in
-      if (b =? 0)%Z && (k =? 0)%Z && (p =? 0)%Z && is_infix v s_comma      (* val in ',' *)
+      if (b =? 0)%Z && (k =? 0)%Z && (p =? 0)%Z && is_infix v s_comma && negb isident      (* val in ',' *)
       then (rev (t :: acc), r)
       else upto_comma r b k p (t :: acc)
   end.
